@@ -235,7 +235,7 @@ func genTags(tier string, seed uint64) {
 	}
 	// foreign CBOR: registered and unregistered tags on every item kind, into an untyped slot and into typed slots
 	items := []string{"00", "20", "40", "4101", "60", "6161", "623432", "80", "8101", "a0", "a1617801", "a26178016179616b", "f4", "f6", "fb3ff8000000000000", "9fff", "bfff", "420102", "a1617360", "a161736161"}
-	tags := []uint64{0, 23, 24, 25, 100, 1100, 2100, 3100, 65536, 1 << 32}
+	tags := []uint64{0, 1, 2, 3, 21, 23, 24, 25, 32, 42, 100, 255, 256, 258, 1100, 2100, 3100, 55799, 55800, 65535, 65536, 1 << 32, 1<<63 - 1, 1<<64 - 1}
 	ifaceT := tid(reflect.TypeOf((*interface{})(nil)).Elem())
 	for _, aid := range []int{0, 1, 2, 3} {
 		for _, tg := range tags {
